@@ -77,7 +77,7 @@ func caseGen() *rapid.Generator[Case] {
 				op.Name = rapid.IntRange(0, 8).Draw(t, "name")
 				op.Deco = dg.Draw(t, "deco")
 			case "style":
-				op.Subject = rapid.SampledFrom([]string{"name", "name", "name", "builtin", "pkg", "pkg", "texttable", "unknown", "empty"}).Draw(t, "subject")
+				op.Subject = rapid.SampledFrom([]string{"name", "name", "name", "builtin", "pkg", "pkg", "texttable", "unknown", "empty", "near"}).Draw(t, "subject")
 				op.Name = rapid.IntRange(0, 8).Draw(t, "name")
 				op.Which = rapid.IntRange(0, 5).Draw(t, "which")
 				switch op.Subject {
@@ -87,6 +87,9 @@ func caseGen() *rapid.Generator[Case] {
 				case "pkg":
 					op.Form = rapid.SampledFrom([]string{"bare", "flip", "trail", "flip+trail", "pad", "tt."}).Draw(t, "form")
 					op.Trail = rapid.SampledFrom([]string{"x", "x.y", "", "utf8-light", "caption=foo", "CSV", "..", "texttable.none"}).Draw(t, "trail")
+				case "near":
+					op.Form = rapid.SampledFrom([]string{"bare", "bare", "tt.", "TT.", "bare+trail"}).Draw(t, "form")
+					op.Trail = rapid.SampledFrom([]string{"x", "xy", "x.y", "wide", "compact", "caption"}).Draw(t, "trail")
 				case "texttable":
 					op.Form = rapid.SampledFrom([]string{"bare", "flip"}).Draw(t, "form")
 				default:
